@@ -1,6 +1,6 @@
 (* C14 - Exported data re-imports to the same dataset.
    Only the property theorems; each is closed by `exact <lemma>` and followed by Print Assumptions.
-   Model: Model.v / Turtle.v (the codecs of kolibrie/src/sparql_database.rs at commits 74abf0c + 5932e73);
+   Model: Model.v / Turtle.v (the codecs of kolibrie/src/sparql_database.rs at commits 74abf0c, 5932e73, e7e251c, dbe5296);
    Spec: Spec.v (a dataset is the SET of its lexical quads; well-formedness = the property's quantifier).
 
    Scope of the round-trip theorems: datasets whose terms are IRIs, blank nodes and literals (`wf_db`).
@@ -46,11 +46,12 @@ Theorem C14_ntriples :
 Proof. exact nt_roundtrip. Qed.
 Print Assumptions C14_ntriples.
 
-(* (4b) Turtle, default graph, for a database with an empty prefix map: outside the Turtle known classes
-   (a value that both starts and ends with a double quote; an object whose written text contains both annotation
-   markers) the exported text loads without error and gives back the same set of triples *)
+(* (4b) Turtle, default graph, for a database with an empty prefix map: outside the Turtle double-decoding class
+   (a default-graph object value that both starts and ends with a double quote) the exported text loads without
+   error and gives back the same set of triples.  Literals containing the annotation markers {| |} are ordinary
+   literals since commit e7e251c. *)
 Theorem C14_turtle :
-  forall db : list quad, wf_db db = true -> known_ttl db = false ->
+  forall db : list quad, wf_db db = true -> known_dd_ttl db = false ->
     exists l, load_ttl (gen_ttl db) = TOk l /\ same_set l (default_part db).
 Proof. exact ttl_roundtrip. Qed.
 Print Assumptions C14_turtle.
@@ -73,9 +74,14 @@ Theorem C14_double_decoding_refuted_turtle :
 Proof. exists dd_witness. exact ttl_dd_refuted. Qed.
 Print Assumptions C14_double_decoding_refuted_turtle.
 
-(* The second Turtle class (known_ttl_annot: annotation markers inside an object) has no `_refuted` theorem: the
-   model does not describe what parse_turtle does with an annotation block (it answers TUnsupported); the class
-   is established on the implementation only (corpus/C14/known-turtle-annotation-*.json). *)
+(* regression for the repaired annotation defect (e7e251c): searching the whole written literal "a {| b c |} d" (the
+   pre-fix behaviour) finds an annotation block; the repaired search (after the literal) finds none, also for "{|}" *)
+Theorem C14_annotation_regression :
+  (exists pre post content rest, find_sub sANN_OPEN annot_lit = Some (pre, post) /\ find_sub sANN_CLOSE post = Some (content, rest)) /\
+  find_sub sANN_OPEN (ann_searched annot_lit) = None /\
+  find_sub sANN_OPEN (ann_searched (quoted [123; 124; 125])) = None.
+Proof. exact annot_regression. Qed.
+Print Assumptions C14_annotation_regression.
 
 (* non-vacuity: a well-formed database outside the known classes with every kind of term and the characters the
    property names (quote, backslash, line break, non-BMP, empty string), and its round trips *)
@@ -92,14 +98,20 @@ Example C14_example_nq : load_nq (gen_nq ex_db) = ex_db.
 Proof. vm_compute. reflexivity. Qed.
 Example C14_example_nt : load_nt (gen_nt ex_db) = default_part ex_db.
 Proof. vm_compute. reflexivity. Qed.
-Example C14_example_ttl : known_ttl ex_db = false /\ ttl_same (load_ttl (gen_ttl ex_db)) (default_part ex_db) = true.
+Example C14_example_ttl : known_dd_ttl ex_db = false /\ ttl_same (load_ttl (gen_ttl ex_db)) (default_part ex_db) = true.
 Proof. split; vm_compute; reflexivity. Qed.
+(* literals containing the annotation markers round-trip in Turtle *)
+Definition ex_annot_db : list quad :=
+  [ (ex_s, ex_p, [123; 124; 125], None); (ex_s, ex_p, [97; 32; 123; 124; 32; 98; 32; 99; 32; 124; 125; 32; 100], None) ].
+Example C14_example_ttl_annot :
+  wf_db ex_annot_db = true /\ known_dd_ttl ex_annot_db = false /\ ttl_same (load_ttl (gen_ttl ex_annot_db)) ex_annot_db = true.
+Proof. repeat split; vm_compute; reflexivity. Qed.
 (* Turtle grouping: one subject with two predicates (" ; ") and two objects (" , "), a second subject *)
 Definition ex_p2 : str := [117;114;110;58;112;50].                         (* urn:p2 *)
 Definition ex_ttl_db : list quad :=
   [ (ex_s, ex_p2, [111;50], None); (ex_s, ex_p, [111;49], None); (ex_s, ex_p2, [34;113], None); ([95;58;98], ex_p, ex_s, None) ].
 Example C14_example_ttl_text :
-  wf_db ex_ttl_db = true /\ known_ttl ex_ttl_db = false /\
+  wf_db ex_ttl_db = true /\ known_dd_ttl ex_ttl_db = false /\
   gen_ttl ex_ttl_db =
     [60;95;58;98;62;32;60;104;116;116;112;58;47;47;97;47;112;62;32;60;104;116;116;112;58;47;47;97;47;115;62;32;46;10] ++
     [60;104;116;116;112;58;47;47;97;47;115;62;32;60;104;116;116;112;58;47;47;97;47;112;62;32;34;111;49;34;32;59;32;
